@@ -485,7 +485,16 @@ func c11ViaHandle(h *handler, payload []byte) (o c11Obs) {
 	}
 	resp, err := h.Handle(ctx, header, req)
 	o.err = err
-	o.hung = ctx.Err() != nil && time.Since(t0) >= c11Deadline
+	if ctx.Err() != nil && time.Since(t0) >= c11Deadline {
+		// suspected: confirm with a ten times longer deadline, so that a slow machine is not mistaken for a handler
+		// that only returns when its context is cancelled
+		ctx2, cancel2 := context.WithTimeout(context.Background(), 10*c11Deadline)
+		defer cancel2()
+		t1 := time.Now()
+		resp, err = h.Handle(ctx2, header, req)
+		o.err = err
+		o.hung = ctx2.Err() != nil && time.Since(t1) >= 10*c11Deadline
+	}
 	if err != nil {
 		o.unsupported = errors.Is(err, ErrUnsupportedAPI)
 		o.guard = strings.Contains(err.Error(), "version") && strings.Contains(err.Error(), "not supported")
@@ -500,7 +509,7 @@ func c11ViaServer(addr string, payload []byte) (reply []byte, replied bool, err 
 		return nil, false, err
 	}
 	defer conn.Close()
-	_ = conn.SetDeadline(time.Now().Add(8 * time.Second))
+	_ = conn.SetDeadline(time.Now().Add(60 * time.Second))
 	if err := protocol.WriteFrame(conn, payload); err != nil {
 		return nil, false, err
 	}
@@ -559,7 +568,7 @@ func TestVerifC11(t *testing.T) {
 			return
 		}
 		if o.hung {
-			rep.Fail("advertised-served", "no-reply-hang:"+name, fmt.Sprintf("%s v%d: handler.Handle did not return until the harness cancelled its context after %v (the server's context has no deadline: the client never gets a reply and the goroutine spins)", name, cs.Version, c11Deadline), cs)
+			rep.Fail("advertised-served", "no-reply-hang:"+name, fmt.Sprintf("%s v%d: handler.Handle did not return until the harness cancelled its context (after %v, and again after %v) — the server's context has no deadline: the client never gets a reply and the goroutine spins", name, cs.Version, c11Deadline, 10*c11Deadline), cs)
 			return
 		}
 		if advertised {
@@ -919,7 +928,7 @@ type c11ConcFailure struct {
 }
 
 func c11RoundTrip(conn net.Conn, rq c11Req, corr int32) ([]byte, error) {
-	_ = conn.SetDeadline(time.Now().Add(15 * time.Second))
+	_ = conn.SetDeadline(time.Now().Add(120 * time.Second))
 	if err := protocol.WriteFrame(conn, c11Payload(rq.Key, rq.Version, corr, rq.Body)); err != nil {
 		return nil, err
 	}
